@@ -215,8 +215,15 @@ func (g *Gen) wellFormed(proto string) Command {
 	}
 	if c.Kind == "get" {
 		n := 1 + g.r.Intn(5)
+		long := g.r.Intn(6) == 0 // a request of several KB: longer than any reader buffer in the path
+		if long {
+			n = 17 + g.r.Intn(44)
+		}
 		for i := 0; i < n; i++ {
 			k := make([]byte, 1+g.r.Intn(40))
+			if long {
+				k = make([]byte, 200+g.r.Intn(51))
+			}
 			for j := range k {
 				if proto == "text" {
 					k[j] = byte(33 + g.r.Intn(94))
@@ -345,7 +352,7 @@ func parseStream(rep *Report, d *Driver, proto string, data []byte, segs []int, 
 
 func init() {
 	checks["C07"] = func(rep *Report, tier string, seed int64) {
-		rep.Rule = "pipelines of 1..6 well-formed requests of every supported command (binary keys of arbitrary bytes 1..250, text keys of printable bytes, data 0..66000 bytes of CR/LF/0x80/0/space, all-ones and random 32-bit fields, quiet batches closed by get or noop), each delivered to the REAL parser through a reader that returns random segment sizes (1 byte .. whole) under 3 different segmentations; every decoded request is compared with the Lean parser model on the same remaining bytes and with the generator's intent, including the bytes left unread; protocol choice compared on all 256 first bytes; distinct = distinct (protocol, command kinds of the pipeline, segmentation class)"
+		rep.Rule = "pipelines of 1..6 well-formed requests of every supported command (binary keys of arbitrary bytes 1..250, text keys of printable bytes, data 0..66000 bytes of CR/LF/0x80/0/space, all-ones and random 32-bit fields, quiet batches closed by get or noop; one get in six with 17..60 keys of 200..250 bytes; text get lines of 4000..70000 bytes around every multiple of the reader's 4096-byte buffer), each delivered to the REAL parser through a reader that returns random segment sizes (1 byte .. whole) under 3 different segmentations; every decoded request is compared with the Lean parser model on the same remaining bytes and with the generator's intent, including the bytes left unread; protocol choice compared on all 256 first bytes; distinct = distinct (protocol, command kinds of the pipeline, segmentation class)"
 		d := StartDriver()
 		defer d.Close()
 		g := &Gen{r: rand.New(rand.NewSource(seed))}
@@ -375,13 +382,47 @@ func init() {
 				rep.Evaluations++
 				rep.Validated++
 				distinct[fmt.Sprintf("%s/%s/%d", proto, strings.Join(kinds, ","), len(segs) > 0)] = true
-				if len(rep.Divergences) > 3 || len(rep.Violations) > 5 {
+				if enoughDivergences(rep, 3) || len(rep.Violations) > 5 {
 					rep.Distinct = len(distinct)
 					return
 				}
 			}
 			if len(rep.Samples) < 3 {
 				rep.Samples = append(rep.Samples, map[string]interface{}{"proto": proto, "requests": intents})
+			}
+		}
+		// text command lines around the reader's buffer size (bufio's default 4096) and its multiples
+		for _, L := range []int{4000, 4094, 4095, 4096, 4097, 4098, 8191, 8192, 8193, 12288, 16385, 70000} {
+			var keys []GetKey
+			line := len("get") + len("\r\n")
+			for line < L {
+				kl := 250
+				if L-line-1 < kl {
+					kl = L - line - 1
+				}
+				if kl <= 0 {
+					break
+				}
+				k := make([]byte, kl)
+				for j := range k {
+					k[j] = byte('a' + g.r.Intn(26))
+				}
+				keys = append(keys, GetKey{Key: k})
+				line += 1 + kl
+			}
+			c := Command{Kind: "get", Keys: keys}
+			follow := Command{Kind: "touch", Key: []byte("after"), Exptime: 99}
+			stream := append(c.Encode("text"), follow.Encode("text")...)
+			for s := 0; s < 2; s++ {
+				var segs []int
+				if s == 1 {
+					segs = randSegs(g.r, len(stream))
+				}
+				parseStream(rep, d, "text", stream, segs, []string{intent(c, "text"), intent(follow, "text")}, fmt.Sprintf("long-line-%d/%d", L, s))
+				rep.Evaluations++
+				rep.Validated++
+				rep.Distribution["long-text-line"]++
+				distinct[fmt.Sprintf("text/long-get-%d/%d", L, s)] = true
 			}
 		}
 		// protocol disambiguation on every first byte
@@ -399,12 +440,13 @@ func init() {
 	}
 
 	checks["C11"] = func(rep *Report, tier string, seed int64) {
-		rep.Rule = "binary: the full grid opcode 0..255 x key length {0,1,5} x extras {0,4,8; for value-carrying opcodes also 9,16,255} x total body {0,1,12,13,14,2^32-1} with 0..20 bytes following; mutations of valid requests (bit flips, truncation at every offset, length-field edits); random byte strings; text: lines with bad numeric fields, missing fields, long tokens, unicode white space; every input is given to the REAL parser (EOF-terminated, single goroutine) and to the model; compared: outcome class, decoded request, bytes consumed; oracle on the real parser: no panic, returns within 2 s, bytes allocated (runtime.MemStats.TotalAlloc delta) <= 64 KiB + 4 x input length + 2 x the model's allocation measure (the sizes the frame consistently declares); distinct = distinct (outcome class, opcode or text command)"
+		rep.Rule = "binary: the full grid opcode 0..255 x key length {0,1,5} x extras {0,4,8; for value-carrying opcodes also 9,16,255} x total body {0,1,12,13,14,2^32-1} with 0..20 bytes following; mutations of valid requests (bit flips, truncation at every offset, length-field edits); random byte strings; text: lines with bad numeric fields, missing fields, long tokens, unicode white space; every input is given to the REAL parser (EOF-terminated, single goroutine) and to the model; compared: outcome class, decoded request, bytes consumed; oracle on the real parser: no panic, returns within 2 s, bytes allocated (runtime.MemStats.TotalAlloc delta) <= 64 KiB + 4 x input length + 2 x the model's allocation measure (the sizes the frame consistently declares); every 97th input and every input on which parser and model disagree is also sent to a REAL server connection (L1-only stack) followed by the client's half-close: the server must answer and/or close within 2 s, never hang; distinct = distinct (outcome class, opcode or text command)"
 		d := StartDriver()
 		defer d.Close()
 		r := rand.New(rand.NewSource(seed))
 		g := &Gen{r: r}
 		distinct := map[string]bool{}
+		probes := 0
 		try := func(proto string, data []byte, what string) bool {
 			ob := parseOnce(compsOf(proto), data, nil)
 			rep.Evaluations++
@@ -427,9 +469,30 @@ func init() {
 				fmt.Sscanf(got[i+7:], "%d", &modelAlloc)
 				got = got[:i]
 			}
+			// (TotalAlloc is process-wide: goroutines of the real server stacks started by the probes
+			// below may allocate in the background — measure again before believing an excess)
+			for retry := 0; retry < 3 && ob.alloc > 64*1024+4*uint64(len(data))+2*modelAlloc; retry++ {
+				time.Sleep(20 * time.Millisecond)
+				if ob2 := parseOnce(compsOf(proto), data, nil); ob2.alloc < ob.alloc {
+					ob.alloc = ob2.alloc
+				}
+			}
 			if ob.alloc > 64*1024+4*uint64(len(data))+2*modelAlloc {
 				rep.Violations = append(rep.Violations, Violation{What: fmt.Sprintf("%s parser allocated %d bytes for a %d-byte input whose consistent length fields declare %d", proto, ob.alloc, len(data), modelAlloc), Signature: "parser-alloc:" + proto, Replay: replay})
 				return false
+			}
+			probes++
+			if got != ob.line || probes%97 == 0 {
+				// the property at the level of the server: after these bytes and the client's
+				// half-close the REAL connection loop answers and/or closes — it never hangs or spins
+				st := GetStack(StackCfg{Orca: "l1only", Locked: "none", Bits: 0, L1: "std"})
+				if len(data) < 1<<20 {
+					_, ending := feedPrefixAndClose(st, "main", data, 2*time.Second)
+					rep.Distribution["server-probe:"+ending]++
+					if ending == "hang" {
+						rep.Violations = append(rep.Violations, Violation{What: fmt.Sprintf("after %d bytes (%s) and the client's close the server neither answered to the end nor closed the connection within 2 s (the connection loop is stuck or spinning)", len(data), what), Signature: "server-hang:" + proto, Replay: replay})
+					}
+				}
 			}
 			if got != ob.line {
 				// keep going: a later input may show the property itself failing (a concrete input)
